@@ -261,7 +261,8 @@ def r4_one_policy(ctx):
         ev = Evaluator(repo, f).run_function()
         hit = False
         for pc, node in ev.raises:
-            if pc and pc[-1][1] and pc[-1][0].startswith('lt(1,') and 'sum' in pc[-1][0]:
+            # "more than one": 1 < the number of policies given, counted as a sum of tests or as the length of the filtered list
+            if pc and pc[-1][1] and pc[-1][0].startswith('lt(1,') and ('sum' in pc[-1][0] or 'len' in pc[-1][0]):
                 e = node.exc.func.id if isinstance(node.exc, ast.Call) and isinstance(node.exc.func, ast.Name) else None
                 hit = hit or e == exc
         ctx.check('R4.single', site(f), hit, key(f, 'reject-two'),
